@@ -38,6 +38,7 @@ from contracts import c03 as _c03  # noqa: E402
 
 CONTRACTS += [_c05.bcrypt_2_contract] + [c for c in _c03.CONTRACTS if c.id == "utf8_repeat_string"]
 LEMMAS = [l for l in _c03.LEMMAS if l.id == "utf8-repeat-whole-copies"]  # the published $2$ variant cycles the key without terminator: emulated by repetition (shared with C05)
+CONTRACTS += [_mq.msdcc2_raw]
 FINITE = [_mq.cisco_finite, Finite("transposition-tables-published-order", md5crypt.published_tables, "md5-crypt / sha256-crypt / sha512-crypt transposition tables (passlib and libpass) equal the output order of the published algorithms"),
           Finite("sha-crypt-tables-identical", shacrypt.tables_equal, "passlib and libpass carry identical _c_digest_offsets / transposition tables")]
 BOUNDED = [Bounded("c02", "harness/c02.py", descr="~85 formats against independent references, crypt(3), Django, bcrypt, hashlib.scrypt", timeout=900)]
@@ -73,4 +74,8 @@ MUTANTS += [
     ("sha1_crypt: seed without the rounds field", "passlib/handlers/sha1_crypt.py", "        result = (f\"{self.salt}$sha1${rounds}\").encode(\"ascii\")", "        result = (f\"{self.salt}$sha1$\").encode(\"ascii\")", "refute", "sha1_crypt"),
     ("sha1_crypt: hmac keyed with the salt", "passlib/handlers/sha1_crypt.py", "        keyed_hmac = compile_hmac(\"sha1\", secret)", "        keyed_hmac = compile_hmac(\"sha1\", self.salt.encode(\"ascii\"))", "refute", "sha1_crypt"),
     ("sha1_crypt: one round short", "passlib/handlers/sha1_crypt.py", "        for _ in range(rounds):\n            result = keyed_hmac(result)", "        for _ in range(rounds - 1):\n            result = keyed_hmac(result)", "refute", "sha1_crypt"),
+]
+MUTANTS += [
+    ("msdcc2: user name lower-cased after it is encoded", "passlib/handlers/windows.py", "        user = to_unicode(user, \"utf-8\", param=\"user\").lower().encode(\"utf-16-le\")\n        tmp = md4(md4(secret).digest() + user).digest()", "        user = to_unicode(user, \"utf-8\", param=\"user\").encode(\"utf-16-le\").lower()\n        tmp = md4(md4(secret).digest() + user).digest()", "refute", "msdcc2"),
+    ("msdcc2: 10239 rounds", "passlib/handlers/windows.py", "pbkdf2_hmac(\"sha1\", tmp, user, 10240, 16)", "pbkdf2_hmac(\"sha1\", tmp, user, 10239, 16)", "refute", "msdcc2"),
 ]
